@@ -1,10 +1,18 @@
 #!/bin/bash
 # usage: tools/tryb.sh <benign-or-seeded dir name> <PROP> [extra check args]   -- runs one check on a scratch copy with the patch applied
-set -e
+# (a patch written before a later fix: commit is applied to the tree it was written for)
 name=$1; prop=$2; shift 2
 d=/verif/benign/$name; [ -d $d ] || d=/verif/seeded/$name
 tmp=$(mktemp -d /tmp/verif_try_XXXX)
 cp -r /repo/pddl_plus_parser $tmp/
-(cd $tmp && git apply --whitespace=nowarn $d/patch.diff)
+if ! (cd $tmp && git apply --whitespace=nowarn $d/patch.diff 2>/dev/null); then
+  rm -rf $tmp/pddl_plus_parser
+  for base in 9c46f5c; do
+    git -C /repo archive $base pddl_plus_parser | tar -x -C $tmp
+    if (cd $tmp && git apply --whitespace=nowarn $d/patch.diff 2>/dev/null); then echo "(applied on base $base)"; break; fi
+    rm -rf $tmp/pddl_plus_parser
+  done
+fi
+[ -d $tmp/pddl_plus_parser ] || { echo "patch does not apply"; rm -rf $tmp; exit 2; }
 /venv/bin/python /verif/check $prop --root $tmp --no-evidence "$@" | grep -v "^  rule.*-> ok" || true
 if [ -n "$KEEP" ]; then echo "kept $tmp"; else rm -rf $tmp; fi
